@@ -34,7 +34,12 @@ def gen_case(rng, quick):
     d = int(rng.choice([1, 2, 2, 3, 4] if cls == 'mps' else [1, 2, 2, 3]))
     entries = str(rng.choice(['complex', 'complex', 'real', 'int', 'gauss', 'ones', 'zeros']))
     mode = str(rng.choice(['left', 'right']))
-    return dict(cls=cls, L=L, d=d, entries=entries, mode=mode, seed=int(rng.integers(1 << 30)))
+    # a history: further calls on the same object, possibly after the user has overwritten site tensors
+    hist = []
+    if rng.random() < 0.3:
+        for _ in range(int(rng.integers(1, 3))):
+            hist.append([bool(rng.random() < 0.7), mode if rng.random() < 0.6 else str(rng.choice(['left', 'right']))])
+    return dict(cls=cls, L=L, d=d, entries=entries, mode=mode, seed=int(rng.integers(1 << 30)), hist=hist)
 
 
 def build(ptn, c):
@@ -59,6 +64,13 @@ def run(ctx):
         try:
             obj = build(ptn, c)
             tr = canon.record_canon(ptn, obj, c['cls'], 'ortho', c['mode'])
+            hrng = np.random.default_rng(c['seed'] + 1)
+            for do_poke, mode2 in c.get('hist', []):
+                if tr[-1].get('ev') != 'end':
+                    break
+                if do_poke:
+                    canon.poke(obj, hrng, tr)
+                tr += canon.record_canon(ptn, obj, c['cls'], 'ortho', mode2)
         except BaseException as ex:  # noqa
             tr = [dict(ev='raise', exc=f'generator: {type(ex).__name__}: {str(ex)[:80]}')]
         traces.append(tr)
